@@ -13,6 +13,7 @@ Print Assumptions C19_integer_roundtrip.
 (* Integer(const char * ) of operator std::string is the identity *)
 Theorem C19_integer_string_roundtrip : Integer_string_roundtrip_stmt.   Proof. exact integer_string_roundtrip. Qed.
 Print Assumptions C19_integer_string_roundtrip.
+(* near-definitional: restates the shape of the model; its weight comes from the correspondence run *)
 Theorem C19_absOutput : AbsOutput_stmt.                                 Proof. exact abs_output. Qed.
 Print Assumptions C19_absOutput.
 (* any number of integers written with a white-space separator are read back in order *)
@@ -49,7 +50,8 @@ Print Assumptions C19_rint_hex_roundtrip.
 (* polynomials: the reader's own text format round-trips; what the writer prints does not (known finding) *)
 Theorem C19_poly_degree_format_roundtrip : Poly_degree_format_roundtrip_stmt. Proof. exact poly_degree_format_roundtrip. Qed.
 Print Assumptions C19_poly_degree_format_roundtrip.
-(* the algebraic text Poly1Dom::write prints determines the polynomial: a reference parser recovers its non-zero terms,
+(* INJECTIVITY OF THE WRITER (poly_parse is a reference parser that exists only in Model.v, not a givaro reader):
+   the algebraic text Poly1Dom::write prints determines the polynomial: a reference parser recovers its non-zero terms,
    and two coefficient vectors printed alike are equal after setdegree (indeterminate name not starting with '(' or a digit) *)
 Theorem C19_poly_text_parse : forall var, var_ok var -> Poly_text_parse_stmt var.   Proof. exact poly_text_parse. Qed.
 Print Assumptions C19_poly_text_parse.
@@ -71,13 +73,15 @@ Print Assumptions C19_element_word_sequence.
 (* rationals into one variable: values in order, no exception, stream at eof and not failed *)
 Theorem C19_rational_sequence_same_dest : Rational_sequence_same_dest_stmt. Proof. exact rational_sequence_same_dest. Qed.
 Print Assumptions C19_rational_sequence_same_dest.
-(* the Rational reader depends on the previous value of the variable only when Rational(num, 0) throws *)
+(* the Rational reader depends on the previous value of the variable only when Rational(num, 0) throws
+   (near-definitional: rat_read_into is written that way; the correspondence run on dirty destinations gives it weight) *)
 Theorem C19_rational_dest_independent : Rational_dest_independent_stmt.     Proof. exact rational_dest_independent. Qed.
 Print Assumptions C19_rational_dest_independent.
 (* mpz_to_ruint (reset; set every limb) on a variable with any limbs; the ruint / rint readers on such a variable
    are the readers of C19_ruint_*_roundtrip / C19_rint_*_roundtrip *)
 Theorem C19_ruint_dest_independent : Ruint_dest_independent_stmt.           Proof. exact ruint_dest_independent. Qed.
 Print Assumptions C19_ruint_dest_independent.
+(* the next two are corollaries by rewriting (near-definitional) *)
 Theorem C19_ruint_read_any_dest : Ruint_read_any_dest_stmt.                 Proof. exact ruint_read_any_dest. Qed.
 Print Assumptions C19_ruint_read_any_dest.
 Theorem C19_rint_read_any_dest : Rint_read_any_dest_stmt.                   Proof. exact rint_read_any_dest. Qed.
